@@ -27,7 +27,7 @@ pub static DEF: CheckDef = CheckDef {
 };
 
 fn families(t: Tier) -> Vec<(&'static str, u64)> {
-    vec![("grid", 120 * FUNCS), ("rand", t.n(6_000, 300_000))]
+    vec![("grid", 120 * FUNCS), ("rand", t.n(6_000, 1_500_000))]
 }
 fn floors(_t: Tier) -> Vec<(&'static str, u64)> {
     vec![("evaluations", 8_000), ("refusals_observed", 200), ("softmax_rows_monitored", 300), ("elements_compared", 50_000)]
